@@ -64,9 +64,17 @@ def make_cases(rng, tier):
         nr, nz = rng.choice([(33, 33), (49, 65), (65, 65), (80, 57)])
         rmin, rmax, zmin, zmax = 1.0, 2.0, -0.75, 0.75
         k = rng.choice([2, 3, 3, 4])
-        blobs = [(1.0, 1.5 + rng.uniform(-0.04, 0.04), rng.uniform(-0.06, 0.06), rng.uniform(0.25, 0.35))]
-        for _ in range(k - 1):
-            blobs.append((rng.uniform(0.7, 1.1), 1.5 + rng.uniform(-0.25, 0.25), rng.choice([-1, 1]) * rng.uniform(0.45, 0.7), rng.uniform(0.22, 0.35)))
+        if len(cases) % 3 == 2:
+            # hills displaced DIAGONALLY: the saddle between them is tilted ~45 degrees against the grid and asymmetric, so psi_RR and psi_ZZ have the SAME sign
+            # there and only the mixed derivative makes the Hessian determinant negative
+            w = rng.uniform(0.18, 0.24)
+            dx, dz = rng.choice([-1, 1]) * rng.uniform(0.28, 0.42), rng.choice([-1, 1]) * rng.uniform(0.28, 0.42)
+            c0 = (1.5 + rng.uniform(-0.03, 0.03), rng.uniform(-0.05, 0.05))
+            blobs = [(1.0, c0[0] - dx / 2, c0[1] - dz / 2, w), (rng.uniform(0.8, 1.0), c0[0] + dx / 2, c0[1] + dz / 2, w * rng.uniform(0.9, 1.1))]
+        else:
+            blobs = [(1.0, 1.5 + rng.uniform(-0.04, 0.04), rng.uniform(-0.06, 0.06), rng.uniform(0.25, 0.35))]
+            for _ in range(k - 1):
+                blobs.append((rng.uniform(0.7, 1.1), 1.5 + rng.uniform(-0.25, 0.25), rng.choice([-1, 1]) * rng.uniform(0.45, 0.7), rng.uniform(0.22, 0.35)))
         sign = rng.choice([1.0, -1.0])
         psi, grad, hess = gauss(blobs, sign)
         dR, dZ = (rmax - rmin) / (nr - 1), (zmax - zmin) / (nz - 1)
@@ -88,7 +96,9 @@ def make_cases(rng, tier):
         inside = [p for p in pts if box[0] < p[0] < box[1] and box[2] < p[1] < box[3]]
         if not ok or not any(p[2] == "O" for p in inside) or not any(p[2] == "X" for p in inside):
             continue
-        cases.append(dict(blobs=blobs, sign=sign, nr=nr, nz=nz, rmin=rmin, rmax=rmax, zmin=zmin, zmax=zmax, atol=1e-6, maxits=50, truth=[list(p) for p in inside]))
+        same_sign = sum(1 for p in inside if p[2] == "X" and float(hess(p[0], p[1])[0]) * float(hess(p[0], p[1])[2]) > 0)
+        cases.append(dict(blobs=blobs, sign=sign, nr=nr, nz=nz, rmin=rmin, rmax=rmax, zmin=zmin, zmax=zmax, atol=1e-6, maxits=50, truth=[list(p) for p in inside],
+                          saddles_with_same_sign_diagonal=same_sign))
     return cases
 
 
@@ -185,6 +195,51 @@ def coq_post(chk, batches):
         chk.tie_broken("coq-eval:c19_cases", f"could not parse {len(batches)} results from coqc output ({len(res)} found)")
         return None
     return [(o, x) for _, o, x in res]
+
+
+def legs_oracle(chk):
+    """findLegs labels the two legs of an X-point 'inner' / 'outer' by the major radius of their STRIKE POINTS: straight-line separatrices (closed-form strike
+    points) in a wall with an inclined side, legs swept to the same side (where the order at the wall can be the reverse of the order at the X-point) or one to
+    each side, lower and upper X-points"""
+    import math
+    cases = []
+    for flip in (1, -1):
+        for (a1, a2, slope, gap) in ((-10.0, -70.0, 0.1, 0.12), (-15.0, -60.0, 0.12, 0.12), (-25.0, -65.0, 0.08, 0.14), (-12.0, -68.0, 0.05, 0.1)):
+            cases.append(dict(x0=1.5037, z0=0.0123, w=0.3, a1=a1, a2=a2, flip=flip, slope=slope, gap=gap))
+    rc, res, o, e = common.run_impl_json("impl/legs.py", dict(cases=cases), timeout=600)
+    if res is None:
+        chk.tie_broken("impl/legs.py", f"implementation run failed rc={rc}: {(o + e)[-1000:]}")
+        return 0
+    n = 0
+    stats = dict(order_reversed_between_xpoint_and_wall=0)
+    for c, r in zip(cases, res):
+        if "error" in r:
+            chk.tie_broken("impl/legs.py:case", f"{c}: {r['error']}")
+            continue
+        n += 1
+        flip, zx = c["flip"], c["flip"] * c["z0"]
+        def strike(adeg):
+            a = math.radians(adeg)
+            s = c["gap"] / (math.cos(a) + c["slope"] * math.sin(a))
+            return (c["x0"] + s * math.cos(a), zx + flip * s * math.sin(a))
+        S = sorted([strike(c["a1"]), strike(c["a2"])])
+        if max(abs(p[1] - zx) for p in S) > 0.55:
+            chk.tie_broken("oracle:legs", f"configuration {c}: a leg would reach the floor of the wall before its inclined side (generator error)")
+            continue
+        ends = sorted([tuple(r["inner_end"]), tuple(r["outer_end"])])
+        err = max(math.hypot(a[0] - b[0], a[1] - b[1]) for a, b in zip(S, ends))
+        if err > 5e-3:
+            chk.fail("legs:strike-points", "the legs found by findLegs do not end on the strike points of the (straight-line) separatrix", dict(case=c, found=ends, analytic=S, error=err))
+            continue
+        if (r["inner_first"][0] < r["outer_first"][0]) != (r["inner_end"][0] < r["outer_end"][0]):
+            stats["order_reversed_between_xpoint_and_wall"] += 1
+        if not r["inner_end"][0] < r["outer_end"][0]:
+            chk.fail("legs:inner-outer-labels", "findLegs labels as 'inner' the leg whose strike point has the LARGER major radius", dict(case=c, inner_strike=r["inner_end"], outer_strike=r["outer_end"],
+                     inner_leaves_xpoint_via=r["inner_first"], outer_leaves_xpoint_via=r["outer_first"]))
+    if stats["order_reversed_between_xpoint_and_wall"] == 0:
+        chk.tie_broken("oracle:legs", "no generated configuration has legs whose order at the wall differs from their order at the X-point (the labelling test is vacuous)")
+    chk.notes["legs_oracle"] = dict(cases=n, **stats)
+    return n
 
 
 def run(chk):
@@ -349,6 +404,7 @@ def run(chk):
                     chk.fail("leg-labels", "the leg labelled inner has its strike point at larger major radius than the one labelled outer", dict(rp, side=side, inner_strike=a, outer_strike=b))
         if c["wall"] == "rect" and abs(r["psi_sep"][0] - xs[0][0]) > 1e-5 * abs(pa):
             chk.fail("primary-xpoint", "the primary X-point (psi_sep[0]) is not the X-point closest in psi to the magnetic axis", dict(rp, psi_sep=r["psi_sep"], expected=xs[0][0]))
+    n += legs_oracle(chk)
     chk.count(evaluations=n, distinct=n)
     chk.cov["rule"] = ("random sums of 2-4 Gaussians (both signs of psi, 4 input resolutions, critical points at arbitrary sub-grid positions, well-separated and non-degenerate, clearly inside the "
                        "searched interior): every true critical point (independent multi-start Newton on the analytic function) returned exactly once, classification, position, gradient, psi value, "
